@@ -106,6 +106,67 @@ static void usp_probe(Wd::sbx& sb, const char* tn, size_t gsz, mon::Rng& rng)
   }
 }
 
+#if MON_ASAN
+extern "C" size_t __sanitizer_get_current_allocated_bytes(void); // ASan runtime (gcc ships no header for it)
+static size_t app_heap_bytes() { return __sanitizer_get_current_allocated_bytes(); }
+#else
+#include <malloc.h>
+static size_t app_heap_bytes() { return mallinfo2().uordblks; }
+#endif
+
+// (a) a request whose k-th element cannot be represented on the other side aborts (C06) -- and a refused request must not keep
+// what it had allocated: neither the application buffer of the deny helper nor the sandbox block of the grant helper;
+// (b) the element-wise grant path must refuse an application buffer that CONTAINS the sandbox, like the other paths do
+template<typename T>
+static void refused_requests(Wd::sbx& sb, const char* tn)
+{
+  using G = ref::guest_t<Cfg, T>;
+  if constexpr (sizeof(G) > sizeof(T)) {
+    // deny: the sandbox holds a value the application's T cannot hold
+    auto p = Wd::template tptr<T>(sb, 8192);
+    const size_t N = 2048;
+    for (size_t i = 0; i < N; i++) Wd::template wr<G>(sb, 8192 + i * sizeof(G), static_cast<G>(i & 0x7f));
+    Wd::template wr<G>(sb, 8192 + (N - 1) * sizeof(G), static_cast<G>(70000)); // the LAST element is the unrepresentable one
+    size_t before = app_heap_bytes();
+    int aborted = 0;
+    mon::ctx("copy_memory_or_deny_access/%s | element %zu unrepresentable, 100 refused requests", tn, N - 1);
+    for (int r = 0; r < 100; r++) { bool copied = false; aborted += mon::aborts([&] { T* out = copy_memory_or_deny_access(sb, p, N, false, copied); if (copied) free(out); }); }
+    size_t after = app_heap_bytes();
+    mon::evals(100);
+    if (aborted != 100) report("copy_memory_or_deny_access", tn, "unrepresentable-element-delivered", mon::fmt("%s: %d of 100 requests aborted", Cfg::name, aborted));
+    else if (after > before + 16 * N * sizeof(T)) report("copy_memory_or_deny_access", tn, "refused-request-leaked-application-buffer", mon::fmt("%s: 100 refused requests of %zu bytes each grew the application heap by %zu bytes", Cfg::name, N * sizeof(T), after - before));
+    else n_ok++;
+  }
+  if constexpr (sizeof(G) < sizeof(T)) {
+    // grant: the application holds a value the sandbox's T cannot hold -> abort, and no sandbox block may stay allocated
+    static T buf[64];
+    for (auto& x : buf) x = static_cast<T>(1);
+    buf[63] = static_cast<T>(30000);
+    sb.get_sandbox_impl()->brk = 4096;
+    uint64_t live0 = vsbx_ev.mallocs - vsbx_ev.frees;
+    bool copied = false;
+    mon::ctx("copy_memory_or_grant_access/%s | element 63 unrepresentable", tn);
+    bool ab = mon::aborts([&] { auto t = copy_memory_or_grant_access(sb, buf, 64, false, copied); (void)t; });
+    uint64_t live1 = vsbx_ev.mallocs - vsbx_ev.frees;
+    mon::evals();
+    if (!ab) report("copy_memory_or_grant_access", tn, "unrepresentable-element-delivered", Cfg::name);
+    else if (live1 != live0) report("copy_memory_or_grant_access", tn, "refused-request-left-a-sandbox-block-allocated", mon::fmt("%s: %llu block(s)", Cfg::name, (unsigned long long)(live1 - live0)));
+    else n_ok++;
+    // an application buffer that starts below the sandbox and ends above it: both ends are application memory, the
+    // sandbox image of its elements would fit -- it contains the sandbox and must be refused
+    const uintptr_t base = Wd::base(sb), size = Wd::size(sb);
+    size_t n = (size + 16 * sizeof(T)) / sizeof(T);
+    sb.get_sandbox_impl()->brk = 16;
+    copied = false;
+    tainted<const T*, S> res = nullptr;
+    mon::ctx("copy_memory_or_grant_access/%s | application buffer containing the whole sandbox (%zu elements)", tn, n);
+    ab = mon::aborts([&] { res = copy_memory_or_grant_access(sb, reinterpret_cast<const T*>(base - 8 * sizeof(T)), n, false, copied); });
+    mon::evals();
+    if (!ab && res != nullptr) report("copy_memory_or_grant_access", tn, "buffer-containing-the-sandbox-accepted", mon::fmt("%s: source [base-%zu, base+%zu) of %zu elements was copied (copied=%d)", Cfg::name, 8 * sizeof(T), n * sizeof(T) - 8 * sizeof(T), n, copied));
+    else n_ok++;
+  }
+}
+
 int main(int argc, char** argv)
 {
   mon::init("C10", argc, argv);
@@ -119,6 +180,8 @@ int main(int argc, char** argv)
   probe<char16_t>(sb, "char16_t", rng);
   probe<float>(sb, "float", rng);
   probe<double>(sb, "double", rng);
+  refused_requests<short>(sb, "short");
+  refused_requests<char16_t>(sb, "char16_t");
   usp_probe<Pair>(sb, "struct{short,short}", sizeof(tainted_volatile<Pair, S>) == 2 * sizeof(ref::guest_t<Cfg, short>) ? 2 * sizeof(ref::guest_t<Cfg, short>) : 0, rng);
   usp_probe<short[6]>(sb, "short[6]", 6 * sizeof(ref::guest_t<Cfg, short>), rng);
   usp_probe<long[3]>(sb, "long[3]", 3 * sizeof(ref::guest_t<Cfg, long>), rng);
